@@ -103,4 +103,14 @@ def jobs(prop, tier, only_fn=None):
                                                  (r"^_(str|wcs)nlen_s_chk\.", NN + 2)],
                                    memchecks=(tag.startswith("guard")), fn=name, bounds=bounds,
                                    timeout=120 if tier == "quick" else 900))
+                if prop in ("C04", "C05"):
+                    # overlapping operands (one arena): the overlap failure clears dest (C04) and is reported once (C05)
+                    NA_ = 3 if tier == "quick" else 4
+                    if wide:
+                        NA_ = 2 if tier == "quick" else 3
+                    defs = _base(name, f, T, kind, rmax, call, NA_) + ["-DLAYOUT_A"]
+                    out.append(Job("%s.%s.%s.A" % (name, prop, variant), prop, "h_copy.c", files, defines=defs, variant=variant,
+                                   unwind_default=2 * NA_ + 3, fn=name,
+                                   bounds={"layout": "A", "arena": 2 * NA_, "all": "symbolic"},
+                                   timeout=300 if tier == "quick" else 1800))
     return out
